@@ -40,6 +40,7 @@
 #include <unistd.h>
 #include <stdlib.h>
 #include <stdint.h>
+#include <limits.h>
 #include <stddef.h>
 #include <stdbool.h>
 #include <string.h>
@@ -505,7 +506,9 @@ snarf_rrule(const char *s, size_t z)
 
 		case KEY_COUNT:
 		case KEY_INTER:
-			if ((tmp = atol(++kv)) <= 0) {
+			if ((tmp = atol(++kv)) <= 0 || tmp > INT_MAX / 7) {
+				/* must fit our ints, the weekly filler
+				 * steps by 7 times this */
 				goto bogus;
 			}
 			switch (c->key) {
